@@ -80,9 +80,11 @@ CONTRACTS = WC.owned(PROP) + [
              self_fields={"_sp": "obj[SPAKE2_Symmetric]", "_side": "str", "_versions": "json", "_B": "obj[IBoss]",
                           "_M": "obj[IMailbox]", "_R": "obj[IReceive]"},
              requires=["isinstance(self._versions, dict)"],
-             raises_exactly={"SPAKEError": f"not spake2_accepts({SP}, msg2)",
-                             "UnicodeEncodeError": f"spake2_accepts({SP}, msg2) and not is_ascii(self._side)"},
-             ensures=[("key-then-version-then-receive",
+             raises={"UnicodeEncodeError": f"spake2_accepts({SP}, msg2) and not is_ascii(self._side)",
+                     "SPAKEError": f"not spake2_accepts({SP}, msg2)", "ValueError": f"not spake2_accepts({SP}, msg2)",
+                     "AssertionError": f"not spake2_accepts({SP}, msg2)"},
+             ensures=[("only-when-finish-accepts", f"spake2_accepts({SP}, msg2) and is_ascii(self._side)"),
+                      ("key-then-version-then-receive",
                        "bcall_targets() == ['IBoss.got_key', 'IMailbox.add_message', 'IReceive.got_key']"),
                       ("key-is-finish-of-password-identity-and-both-messages",
                        f"bcall_arg('got_key', 0, 0) == spake2_key({SP}, msg2) and bcall_arg('got_key', 1, 0) == spake2_key({SP}, msg2)"),
@@ -90,6 +92,8 @@ CONTRACTS = WC.owned(PROP) + [
                        "bcall_arg('add_message', 0, 0) == 'version' and sealed(bcall_arg('add_message', 0, 1), "
                        f"phase_key(spake2_key({SP}, msg2), self._side, 'version'), json_bytes(self._versions))")],
              ensures_raise={"SPAKEError": [("no-key-recorded", "len(bcall_targets()) == 0")],
+                            "ValueError": [("no-key-recorded", "len(bcall_targets()) == 0")],
+                            "AssertionError": [("no-key-recorded", "len(bcall_targets()) == 0")],
                             "UnicodeEncodeError": [("receive-gets-no-key", "bcall_targets() == ['IBoss.got_key']")]},
              modifies=[],
              note="an exception from finish() (reflection, bad element) propagates before any key is handed out"),
